@@ -129,8 +129,10 @@ def main():
 
         hbase.SHARD.clear()
         hbase.SHARD.update(out["consts"])
-        mod = importlib.import_module(a.harness)
         import gtirb
+
+        chpatch.install_det_sets()
+        mod = importlib.import_module(a.harness)
 
         out["gtirb_file"] = gtirb.__file__
         stage = os.environ.get("VERIF_STAGE")
